@@ -154,10 +154,12 @@ def State.onPing (s : State) (d : Bytes) : State :=
 /-- `handleRSTStream` → `closeStream(s, false, 0, false)` -/
 def State.onRST (s : State) (sid : Nat) : State :=
   if s.readerDone || s.hdrPending.isSome then s else
+  -- `getStream` fails (never accepted, already deleted, or `activeStreams == nil`): a bare cleanupStream item still goes to
+  -- loopy, whose handler re-checks `draining && len(estdStreams) == 0`
   match s.find sid with
-  | none => s
+  | none => s.put (.cleanup sid false 0)
   | some x =>
-    if !x.active || s.activeNil then s else
+    if !x.active || s.activeNil then s.put (.cleanup sid false 0) else
     (s.updStream sid fun x => { x with cancelled := true, done := true, active := false }).put (.cleanup sid false 0)
 
 /-- the handler returns: `WriteStatus` (trailers-only; the client has not half-closed, so RST follows).
